@@ -315,6 +315,8 @@ struct Net {
 	reest_seen: HashSet<(usize, usize)>,
 	/// nodes whose user currently refuses payment events (handler returns ReplayEvent)
 	hold_events: Vec<bool>,
+	/// refuse only PaymentFailed (an event without a completion action that would stall the channel)
+	hold_failed_only: Vec<bool>,
 	refused_logged: HashSet<(usize, String, usize)>,
 	/// a miner for the transactions the nodes broadcast (force-closes): unconfirmed transactions in
 	/// broadcast order with their declared type, spent outpoints, confirmed txids
@@ -525,9 +527,10 @@ impl Net {
 				use lightning::events::EventsProvider;
 				let got = std::cell::RefCell::new(Vec::new());
 				let refused = std::cell::RefCell::new(Vec::new());
+				let failed_only = self.hold_failed_only[i];
 				self.nodes[i].node.process_pending_events(&|e: Event| {
-					let hold = matches!(e, Event::PaymentSent { .. } | Event::PaymentFailed { .. } | Event::PaymentClaimable { .. }
-						| Event::PaymentClaimed { .. } | Event::PaymentForwarded { .. });
+					let hold = if failed_only { matches!(e, Event::PaymentFailed { .. }) } else { matches!(e, Event::PaymentSent { .. } | Event::PaymentFailed { .. } | Event::PaymentClaimable { .. }
+						| Event::PaymentClaimed { .. } | Event::PaymentForwarded { .. }) };
 					if hold { refused.borrow_mut().push(e); Err(lightning::events::ReplayEvent()) } else { got.borrow_mut().push(e); Ok(()) }
 				});
 				for e in refused.into_inner() {
@@ -646,11 +649,13 @@ impl Net {
 			Event::PaymentSent { payment_hash, payment_preimage, fee_paid_msat, .. } => {
 				let h = self.hash(&payment_hash.0);
 				let ph = bitcoin::hashes::sha256::Hash::hash(&payment_preimage.0).to_byte_array();
-				self.ev(json!({"ev":"event","node":i,"kind":"PaymentSent","hash":h,"preimage_ok": ph == payment_hash.0,"fee":fee_paid_msat.unwrap_or(0)}));
+				let snap = self.mgr_snaps[i].len();
+				self.ev(json!({"ev":"event","node":i,"kind":"PaymentSent","hash":h,"preimage_ok": ph == payment_hash.0,"fee":fee_paid_msat.unwrap_or(0),"snap":snap}));
 			},
 			Event::PaymentFailed { payment_hash, .. } => {
 				let h = payment_hash.map(|p| self.hash(&p.0)).unwrap_or(0);
-				self.ev(json!({"ev":"event","node":i,"kind":"PaymentFailed","hash":h}));
+				let snap = self.mgr_snaps[i].len();
+				self.ev(json!({"ev":"event","node":i,"kind":"PaymentFailed","hash":h,"snap":snap}));
 			},
 			Event::PaymentPathFailed { payment_hash, payment_failed_permanently, short_channel_id, .. } => {
 				let h = self.hash(&payment_hash.0);
@@ -872,7 +877,9 @@ impl Net {
 		// a locally refused HTLC shows up as an immediate PaymentPathFailed / PaymentFailed
 		let refused = !api_ok || self.log.lock().unwrap()[mark..].iter().any(|e| e["ev"] == "event" && e["hash"] == json!(h)
 			&& (e["kind"] == "PaymentFailed" || e["kind"] == "PaymentPathFailed"));
-		let rec = json!({"ev":"send","node":src,"dst":dst,"chan":c,"hash":h,"amt":amt,"first_amt":first_amt,"limit":limit,"min":min,"usable":usable,
+		// (`snap`: index of the first manager snapshot of the payer that knows this payment)
+		let snap = self.mgr_snaps[src].len();
+		let rec = json!({"ev":"send","node":src,"dst":dst,"chan":c,"hash":h,"amt":amt,"first_amt":first_amt,"limit":limit,"min":min,"usable":usable,"snap":snap,
 			"result": if refused {"err"} else {"ok"}, "api_ok": api_ok});
 		self.log.lock().unwrap().insert(mark, rec);
 		!refused
@@ -1048,7 +1055,8 @@ impl Net {
 			"settle_chain" => {
 				// everything that was broadcast is mined at once, block after block, until every timelock
 				// of the run has expired; messages and monitor writes flow freely in between
-				for i in 0..n { *self.persisters[i].in_progress.lock().unwrap() = false; self.hold_events[i] = false; }
+				let keep = op["keep_holds"].as_bool().unwrap_or(false);
+				for i in 0..n { *self.persisters[i].in_progress.lock().unwrap() = false; if !keep { self.hold_events[i] = false; } }
 				let edges = self.edges.clone();
 				for (a, b) in edges { self.step(&json!({"op":"reconnect","a":a,"b":b}), rng); }
 				self.ev(json!({"ev":"settle_chain"}));
@@ -1078,6 +1086,7 @@ impl Net {
 				let on = op["on"].as_bool().unwrap_or(true);
 				if i < n {
 					self.hold_events[i] = on;
+					self.hold_failed_only[i] = on && op["kinds"].as_str() == Some("failed");
 					self.ev(json!({"ev":"hold_events","node":i,"on":on}));
 					if !on { self.refused_logged.retain(|x| x.0 != i); self.drain(); }
 				} else { did = false; }
@@ -1314,6 +1323,12 @@ impl Net {
 		// persist calls made while loading the monitors are re-persists of known state
 		{ let mut lg = self.log.lock().unwrap(); for e in lg.iter_mut().skip(before) { if e["ev"] == "persist" { e["kind"] = json!("load"); } } }
 		self.ev(json!({"ev":"restarted","node":i}));
+		// the application brings the restarted node up to the chain tip (its manager may be older than that)
+		{
+			let mgr_h = self.nodes[i].node.current_best_block().height;
+			let later: Vec<bitcoin::Block> = self.nodes[i].blocks.lock().unwrap().iter().filter(|(_, h)| *h > mgr_h).map(|(b, _)| b.clone()).collect();
+			for b in later { connect_block(&self.nodes[i], &b); }
+		}
 		self.drain();
 		if reload { self.proj_ext(i, false, true); }
 	}
@@ -1417,7 +1432,7 @@ fn build_net(run: u64, cfg: &Value, log: &Log) -> Net {
 	let mut net = Net {
 		nodes, cfgs, persisters, queues: HashMap::new(), connected, log: log.clone(), chans, hashes, points: Vec::new(),
 		pays: Vec::new(), scids, chan_ids, run, feerate: vec![feerate0; n], executed: 0, skipped: 0,
-		funding_txids: Vec::new(), extra_funding: Vec::new(), extra_broadcast: Vec::new(), mgr_snaps: vec![Vec::new(); n], mgr_clean: vec![Vec::new(); n], mgr_msgs: vec![Vec::new(); n], msgs_emitted: vec![0; n], mgr_evheld: vec![Vec::new(); n], mgr_writes: vec![Vec::new(); n], dirty: vec![HashSet::new(); n], mgr_held: vec![Vec::new(); n], reest_seen: HashSet::new(), hold_events: vec![false; n], refused_logged: HashSet::new(), settling: false, mempool: Vec::new(), spent: HashSet::new(), confirmed: HashSet::new(), saved_idx: vec![None; n], node_cfgs, txids, edges: edges.clone(),
+		funding_txids: Vec::new(), extra_funding: Vec::new(), extra_broadcast: Vec::new(), mgr_snaps: vec![Vec::new(); n], mgr_clean: vec![Vec::new(); n], mgr_msgs: vec![Vec::new(); n], msgs_emitted: vec![0; n], mgr_evheld: vec![Vec::new(); n], mgr_writes: vec![Vec::new(); n], dirty: vec![HashSet::new(); n], mgr_held: vec![Vec::new(); n], reest_seen: HashSet::new(), hold_events: vec![false; n], hold_failed_only: vec![false; n], refused_logged: HashSet::new(), settling: false, mempool: Vec::new(), spent: HashSet::new(), confirmed: HashSet::new(), saved_idx: vec![None; n], node_cfgs, txids, edges: edges.clone(),
 	};
 	for i in 0..n {
 		let _ = net.nodes[i].node.get_and_clear_needs_persistence();
